@@ -70,7 +70,9 @@ impl<'a> Hist<'a> {
         seed: u64,
         c11: bool,
     ) -> Self {
-        let mut w = World::new(frames, init, cls, k);
+        // every third run starts from metadata buffers with arbitrary previous content
+        let dirty = if seed % 3 == 1 { Some(seed.wrapping_mul(0x9e37_79b9_7f4a_7c15) | 1) } else { None };
+        let mut w = World::new_dirty(frames, init, cls, k, dirty);
         out.push(reset_event(&mut w, run, init, "seq", c11));
         Hist {
             w,
